@@ -4,7 +4,7 @@ import numpy as np
 LIGHT = [1, 2, 3, 4, 5, 6, 7, 8, 10, 11, 12, 13, 14, 16, 18, 19, 20, 22, 26, 28, 29, 30]
 
 
-def device_kwargs(rng, n_grid=None):
+def device_kwargs(rng, n_grid=None, overrides=True):
     current = float(10 ** rng.uniform(-2, 0))
     e_kin = float(10 ** rng.uniform(3.3, 4.3))
     r_e = float(10 ** rng.uniform(np.log10(4e-5), np.log10(4e-4)))
@@ -12,9 +12,15 @@ def device_kwargs(rng, n_grid=None):
     perv = current / e_kin ** 1.5
     if perv > 1.5e-6:   # stay well below the virtual-cathode (perveance) limit, beyond it the beam potential is NaN
         current = 1.5e-6 * e_kin ** 1.5
-    return dict(current=current, e_kin=e_kin, r_e=r_e, v_ax=float(rng.uniform(20, 800)), b_ax=float(rng.uniform(0.5, 5)),
-                r_dt=float(r_e * 10 ** rng.uniform(np.log10(8), np.log10(100))), length=float(rng.uniform(0.05, 1.0)),
-                n_grid=int(n_grid or rng.choice([60, 120, 200])))
+    kw = dict(current=current, e_kin=e_kin, r_e=r_e, v_ax=float(rng.uniform(20, 800)), b_ax=float(rng.uniform(0.5, 5)),
+              r_dt=float(r_e * 10 ** rng.uniform(np.log10(8), np.log10(100))), length=float(rng.uniform(0.05, 1.0)),
+              n_grid=int(n_grid or rng.choice([60, 120, 200])))
+    # the documented overrides: current density, energy spread, radial trap depth given explicitly (not derived from I, r_e)
+    if overrides:
+        if rng.random() < 0.35: kw["j"] = float(current / (np.pi * r_e ** 2) * 1e-4 * 10 ** rng.uniform(-0.7, 0.7))
+        if rng.random() < 0.35: kw["fwhm"] = float(10 ** rng.uniform(0.3, 1.8))
+        if rng.random() < 0.25: kw["v_ra"] = float(10 ** rng.uniform(1, 3))
+    return kw
 
 
 def make_device(rng, **over):
